@@ -58,7 +58,14 @@ theorem tbl_row_size {t : Tbl} (h4 : ∀ r ∈ t.toList, r.size = 4) {v : Int} (
 @[simp] theorem pyLen_arr (l : List PV) : pyLen (.arr l) = .ok (.int l.length) := rfl
 @[simp] theorem pyIter_arr (l : List PV) : pyIter (.arr l) = .ok l := rfl
 @[simp] theorem pyMap_arr (f : PV → RV) (l : List PV) : pyMap f (.arr l) = (mapM' f l).map .list := rfl
-@[simp] theorem npWhere_arr (l : List PV) : npWhere (.arr l) = .ok (.tup [.arr (trueIdx l 0)]) := rfl
+/-- `where` of a one-dimensional array (no item is a row). -/
+@[simp] theorem npWhere_arr {l : List PV} (h : l.any PV.isArr = false) :
+    npWhere (.arr l) = .ok (.tup [.arr (trueIdx l 0)]) := by
+  simp only [npWhere, h, Bool.false_eq_true, if_false]
+/-- … of an array of bools computed from a list (the shape every comparison produces). -/
+@[simp] theorem npWhere_arr_map_bool {α} (p : α → Bool) (l : List α) :
+    npWhere (.arr (l.map fun x => .bool (p x))) = .ok (.tup [.arr (trueIdx (l.map fun x => .bool (p x)) 0)]) :=
+  npWhere_arr (any_isArr_map_bool p l)
 @[simp] theorem pyIsNone_none : pyIsNone .none = true := rfl
 @[simp] theorem pyIsNone_arr (l : List PV) : pyIsNone (.arr l) = false := rfl
 @[simp] theorem pyIsNone_str (s : List Char) : pyIsNone (.str s) = false := rfl
@@ -142,7 +149,7 @@ theorem live_eq_liveOf (a : Acc) (v : Int) (h4 : (a.row v).size = 4) : a.live v 
 theorem used_spec {a : Acc} (ha : a.WF) {v : Int} (h : InR a v) :
     (bnd (bnd (bnd (pyIndex (accPV a) (.int v)) fun t => npCmp pyGe t (.int 0)) fun t => npWhere t)
       fun t => pyIndex t (.int 0)) = .ok (idxPV (a.live v)) := by
-  simp only [pyIndex_accPV h, bnd_ok, npCmp_ge_zero, npWhere_arr, pyIndex_tup_cons_zero, trueIdx_ge_zero,
+  simp only [pyIndex_accPV h, bnd_ok, npCmp_ge_zero, npWhere_arr_map_bool, pyIndex_tup_cons_zero, trueIdx_ge_zero,
     live_eq_liveOf a v (wf_row ha h).1, idxPV]
 
 /-! ## the live nucleotides -/
@@ -289,7 +296,7 @@ theorem lookup_spec {t : Tbl} {v : Int} (h : InR t v) (h4 : (Acc.row t v).size =
       fun x => npCmp pyEq x (.int (p : Int))) fun x => npWhere x) fun x => pyIndex x (.int 0))
       fun x => pyIndex x (.int 0)) = .ok (.int ((posToDigit (some t) v used p : Nat) : Int)) := by
   have hmem : p ∈ argsort (t.keys v used) := by rw [mem_argsort, keys_length]; exact hp
-  simp only [npIndex2_keys h h4 hu, bnd_ok, npArgsort_ints, npCmp_eq_idx, npWhere_arr, pyIndex_tup_cons_zero,
+  simp only [npIndex2_keys h h4 hu, bnd_ok, npArgsort_ints, npCmp_eq_idx, npWhere_arr_map_bool, pyIndex_tup_cons_zero,
     where_eq_first hmem, posToDigit]
 
 /-! ## `zeros`, `array`, item assignment -/
